@@ -1,8 +1,11 @@
 package harness
 
 import (
+	"encoding/json"
 	"fmt"
 	"math/rand"
+	"os"
+	"strings"
 	"sync"
 	"testing"
 	"time"
@@ -159,6 +162,37 @@ func TestInproc(t *testing.T) {
 			polluted = true
 		}
 		out.Add(label, rec.Ev{"label": label}, fmt.Sprint(steps), res)
+	}
+	if f := os.Getenv("VERIF_SCN_FILE"); f != "" {
+		// scenarios TLC generated from spec/mc/MC_InprocScn.tla
+		data, err := os.ReadFile(f)
+		if err != nil {
+			panic(err)
+		}
+		var all [][]string
+		for _, ln := range strings.Split(string(data), "\n") {
+			if strings.TrimSpace(ln) == "" {
+				continue
+			}
+			var x struct {
+				Steps []string `json:"steps"`
+			}
+			if err := json.Unmarshal([]byte(ln), &x); err != nil {
+				panic(err)
+			}
+			all = append(all, x.Steps)
+		}
+		rng.Shuffle(len(all), func(i, j int) { all[i], all[j] = all[j], all[i] })
+		if n := count(300, 1000000); n < len(all) {
+			all = all[:n]
+		}
+		for _, st := range all {
+			if out.Stop() {
+				break
+			}
+			add(st)
+		}
+		return
 	}
 	add([]string{"dial d1", "listen l1", "accept l1", "dial d2", "dial d5", "accept l1", "accept l1", "close l1"})
 	add([]string{"listen l1", "listen l4", "close l4", "accept l1", "dial d1", "close l1", "listen l4", "accept l4", "dial d2"}) // address in use, freed, taken over
